@@ -42,6 +42,9 @@ CHECKS = {
  "C17": dict(cat="model_checking", design="3/C17", technique="TLA+ transcription of the averaging rules and by-name post-processing (Homogenization.tla): bounds/ordering/permutation invariance model-checked exhaustively by TLC on a lattice; rule functions and computeHomogenizationFunction (scripted equilibrium) bound by TLC-evaluated exact values",
              text="The classical ordering and bounds, labyrinth relations, single-phase identity and permutation invariance are invariants over every mobility table x fraction vector of the lattice for 1-4 phases; the real rule functions must equal the exact values (also with undefined entries) and computeHomogenizationFunction must equal a fresh by-name evaluation for every post-process mode, stable-phase order/subset, repeated evaluation and option change with the cache on or off.",
              note="mobilities < 1/3; scripted equilibrium object; rtol 1e-9"),
+ "C18": dict(cat="model_checking", design="3/C18", technique="TLA+ model of the strength combination rules and Zener-drag constraint (Strength.tla) checked exhaustively by TLC; real StrengthModel/GrainGrowthModel bound by TLC-evaluated exact results; coupled runs judged by the Equiv.tla acceptor",
+             text="Non-negativity, the Taylor-factor-times-minimum rule and total >= parts are invariants over all branch-value vectors incl. negative/NaN/inf; drag never reverses/accelerates and freezes when strong over all integer growth x drag values; the real classes reproduce the exact results with injected branch values, the real formulas are classified on a radius x spacing lattice incl. zero and sub-core radii, and coupled runs must keep the strength history at n+1 entries, the grain clock equal to the host clock and the grain volume at 1 after every host step over several solve calls.",
+             note="exponent-1 superposition in the exact part; edge/screw reductions and real-valued monotonicity not decided (partial claim, DESIGN 3/C18)"),
 }
 
 NOT_APPLICABLE = {
